@@ -473,6 +473,12 @@ func init() {
 				spec.HoldUS = 100
 				spec.Buffer = r.chance(1, 3)
 				cell += "|" + spec.Policy
+				if spec.MaxPar > 0 && r.chance(1, 4) {
+					// the same Graph object was run before with a larger limit: the limit in force is the one set last
+					spec.PreTasks = 2 + r.intn(4)
+					spec.PreMaxPar = spec.MaxPar + 1 + r.intn(4)
+					cell += "|second-run-lower-limit"
+				}
 				if spec.Policy != "eager" && r.chance(1, 3) {
 					// cancellation while the slots are held and further tasks are queued for one
 					spec.Cancel = Cancel{Kind: "after-release", K: 1 + r.intn(2)}
